@@ -58,6 +58,12 @@ def fields_equal(a, b):
     return None
 
 
+def has_pairs_like(mats):
+    from ..oracles import has_pairs
+
+    return has_pairs(mats)
+
+
 def compare_dense(out, mats, X, G, n, where, tags, eps=None):
     """dense(compact) vs dense BFGS of the pairs in the deques; SPD; secant."""
     S = [X[i + 1] - X[i] for i in range(len(X) - 1)]
@@ -158,6 +164,16 @@ def judge_update(out, pre_X, pre_G, pre_fields, xk, gk, maxcor, eps, post_X, pos
     out.count("accepted")
     if before == maxcor + 1:
         out.count("evictions")
+    if not same_mem and len(post_X) == 1 and np.array_equal(post_X[0], sh.X[-1]) and np.array_equal(post_G[0], sh.G[-1]) and not has_pairs_like(post_mats):
+        # the memory was refreshed (newest point kept, scaled identity): what the solver does, like Algorithm 778, when the matrix
+        # theta*S'S + L D^-1 L' it has to factorise is not numerically positive definite (repository fix dc83f52). Legitimate only then.
+        S_, Y_ = sh.pairs()
+        th_ = float(Y_[-1] @ Y_[-1]) / float(S_[-1] @ Y_[-1])
+        if schur_cond(np.array(S_), np.array(Y_), th_) > 1e12 or len(S_) > n:
+            out.count("memory_refreshed_on_numerically_singular_memory")
+            return None
+        out.violate("memory_refreshed_without_cause", f"{where}: the memory was emptied although the matrix to factorise is well conditioned", **tags)
+        return accepted
     if not same_mem:
         if len(post_X) == len(sh.X):
             what = "stored history differs from (previous history + candidate, oldest evicted)"
